@@ -543,3 +543,209 @@ Example C08_comp_seek_overflow_witnesses :
   snd (cseek 256 toy_dec (Cursor []) c (FromCur (2 ^ 63 - 1))) = Crash 495 /\
   snd (cseek 256 toy_dec (Cursor []) c (FromEnd (- 2 ^ 63))) = Crash 529.
 Proof. vm_compute. split; reflexivity. Qed.
+
+(* ---------- Tie A, decision logic (tools/src2v2.py -> gen/Src2.v): footer length compared before use, block reader loops instead of recursing, Empty state refused ---------- *)
+From MLA Require SrcTie2b SrcTie2Events.
+Check SrcTie2Events.footer_order.
+Theorem C08_tie_footer_order : ltac:(let t := type of SrcTie2Events.footer_order in exact t).
+Proof. exact SrcTie2Events.footer_order. Qed.
+Print Assumptions C08_tie_footer_order.
+Check SrcTie2Events.bfr_read_shape_facts.
+Theorem C08_tie_bfr_read_shape_facts : ltac:(let t := type of SrcTie2Events.bfr_read_shape_facts in exact t).
+Proof. exact SrcTie2Events.bfr_read_shape_facts. Qed.
+Print Assumptions C08_tie_bfr_read_shape_facts.
+Check SrcTie2Events.move_to_next_block_order.
+Theorem C08_tie_move_to_next_block_order : ltac:(let t := type of SrcTie2Events.move_to_next_block_order in exact t).
+Proof. exact SrcTie2Events.move_to_next_block_order. Qed.
+Print Assumptions C08_tie_move_to_next_block_order.
+Check SrcTie2Events.comp_seek_empty_guard.
+Theorem C08_tie_comp_seek_empty_guard : ltac:(let t := type of SrcTie2Events.comp_seek_empty_guard in exact t).
+Proof. exact SrcTie2Events.comp_seek_empty_guard. Qed.
+Print Assumptions C08_tie_comp_seek_empty_guard.
+Check SrcTie2b.try_from_refuses_iff.
+Theorem C08_tie_try_from_refuses_iff : ltac:(let t := type of SrcTie2b.try_from_refuses_iff in exact t).
+Proof. exact SrcTie2b.try_from_refuses_iff. Qed.
+Print Assumptions C08_tie_try_from_refuses_iff.
+Check SrcTie2Events.EV_bfr_read_shape.
+Theorem C08_tie_EV_bfr_read_shape : ltac:(let t := type of SrcTie2Events.EV_bfr_read_shape in exact t).
+Proof. exact SrcTie2Events.EV_bfr_read_shape. Qed.
+Print Assumptions C08_tie_EV_bfr_read_shape.
+Check SrcTie2Events.EV_footer_deserialize_from_shape.
+Theorem C08_tie_EV_footer_deserialize_from_shape : ltac:(let t := type of SrcTie2Events.EV_footer_deserialize_from_shape in exact t).
+Proof. exact SrcTie2Events.EV_footer_deserialize_from_shape. Qed.
+Print Assumptions C08_tie_EV_footer_deserialize_from_shape.
+Check SrcTie2Events.EV_comp_seek_shape.
+Theorem C08_tie_EV_comp_seek_shape : ltac:(let t := type of SrcTie2Events.EV_comp_seek_shape in exact t).
+Proof. exact SrcTie2Events.EV_comp_seek_shape. Qed.
+Print Assumptions C08_tie_EV_comp_seek_shape.
+(* ====================================================================================
+   The archive HEADER (work package hdrsrc): ArchiveHeader::from as the code's reads
+   (HeaderStream.read_header_s), over ANY bytes — hostile, truncated at every point — through
+   any source refining a cursor over them (memory, short reads on any schedule).
+   ==================================================================================== *)
+From MLA Require Import Format Archive HeaderStream HeaderStreamProofs.
+
+(* ends in Ok or one of four errors: never a Crash site, never out of the model's fuel (the
+   loop over the attacker-chosen key count is bounded by the bincode limit: 48 bytes are charged
+   per entry before they are read); at most 7 + LIMIT bytes are consumed, never more than
+   there are; an accepted header is within the limit, its key table (the only allocation sized
+   by the input: one 48-byte element per entry read, after Vec::with_capacity(min(count,
+   1 MiB / 48))) holds at most LIMIT bytes; the outcome is Archive.read_header's on the bytes *)
+Theorem C08_header_total :
+  forall (LIMIT : N) (S : Stream) (b : bytes) (R : st S -> N -> Prop) (s0 : st S),
+  Refines S b R -> R s0 0 ->
+  exists s' r p', read_header_s S LIMIT s0 = (s', r) /\ R s' p' /\ p' <= len b /\ p' <= 7 + LIMIT /\
+    match r with
+    | Ok h => p' = 7 + config_size h /\ config_size h <= LIMIT /\
+              (forall eh, h_enc h = Some eh -> 48 * len (eh_keys eh) <= LIMIT) /\
+              read_header LIMIT b = Ok (h, dropN p' b)
+    | Err e => (e = EUnexpectedEof \/ e = EMagic \/ e = EVersion \/ e = EDeser) /\ read_header LIMIT b = Err e
+    | Crash _ => False
+    end.
+Proof. exact header_total. Qed.
+
+Theorem C08_header_prealloc_bounded : forall count, keys_prealloc count <= 1048576.
+Proof. intros count. unfold keys_prealloc. change (1048576 / 48) with 21845. lia. Qed.
+
+(* non-vacuity: a header announcing 2^63 + 5 wrapped keys followed by 100 bytes, limit 1000,
+   read 3 bytes at a time: DeserializationError after 2 entries (the third runs out of input),
+   149 bytes consumed; with limit 100 the size limit stops it after 107 *)
+Definition hostile_hdr : bytes :=
+  [77; 76; 65; 1; 0; 0; 0; 1; 1] ++ repeat 7 32 ++ [5; 0; 0; 0; 0; 0; 0; 128] ++ repeat 9 100.
+Example C08_header_hostile :
+  len hostile_hdr = 149 /\
+  read_header_s (Throttled hostile_hdr) 1000 (0, [3]) = ((149, [3]), Err EDeser) /\
+  read_header_s (Throttled hostile_hdr) 100 (0, [3]) = ((107, [3]), Err EDeser) /\
+  read_header_s (Cursor (takeN 5 hostile_hdr)) 1000 0 = (5, Err EUnexpectedEof) /\
+  (exists s' r p', read_header_s (Throttled hostile_hdr) 1000 (0, [3]) = (s', r) /\ p' <= 149 /\
+                   match r with Crash _ => False | _ => True end).
+Proof.
+  split; [reflexivity|]. split; [vm_compute; reflexivity|]. split; [vm_compute; reflexivity|].
+  split; [vm_compute; reflexivity|].
+  destruct (C08_header_total 1000 (Throttled hostile_hdr) hostile_hdr _ (0, [3]) (throttled_refines _)
+              ltac:(split; [reflexivity | vm_compute; discriminate])) as (s' & r & p' & Hr & _ & Hp & _ & Hm).
+  exists s', r, p'. split; [exact Hr|]. split; [exact Hp|]. destruct r; [exact I | exact I | exact Hm].
+Qed.
+
+Print Assumptions C08_header_total.
+Print Assumptions C08_header_prealloc_bounded.
+Print Assumptions C08_header_hostile.
+
+(* Tie A: the order of the source reads of ArchiveHeader::from / writes of dump, from /repo *)
+From MLA Require SrcTieHeader.
+Theorem C08_tie_header_calls :
+  Src.HEADER_FROM_CALLS = SrcTieHeader.from_calls_model /\
+  Src.HEADER_FROM_SRC_USES = 3 /\
+  Src.HEADER_DUMP_CALLS = SrcTieHeader.dump_calls_model.
+Proof. exact SrcTieHeader.header_from_calls. Qed.
+Print Assumptions C08_tie_header_calls.
+(* ---------- work package fsstack: the compression reader with a STREAMING decompressor ----------
+   (CompLayerS.v).  TOTALITY over an inner stream that may return Err at ANY read or seek (any
+   bytes, any SizesInfo), for any decoder step that respects its buffers; the state after an
+   error; and the ERROR TIMING: which call meets the inner error. *)
+From MLA Require Import CompFailSafe CompFailSafeProofs CompFailSafeToy CompLayerS CompLayerSProofs CompLayerSTotal CompLayerSToy.
+
+Theorem C08_comp_stream_reader_total :
+  forall (BLOCK : N) (dstate : Type) (dinit : dstate) (dstep : dstate -> bytes -> N -> dresult * N * bytes * dstate),
+    DstepBounded dstep ->
+  forall (S : Stream) (Iin : st S -> Prop) (pin : st S -> N) (M : N), Tame S Iin pin M -> 0 < BLOCK ->
+  forall (si : sizes_info) (P0 : N) (c : sreader dstate S) (n : N), IcompS BLOCK dstate S Iin si P0 c ->
+    match sread BLOCK dstate dinit dstep S c n with
+    | (c', Ok d) => IcompS BLOCK dstate S Iin si P0 c' /\ len d <= n /\ s_pos c' = s_pos c + len d /\
+                    (len d <> 0 -> s_pos c' <= si_max BLOCK si)
+    | (c', Err e) => IcompS BLOCK dstate S Iin si P0 c' /\ e <> EFuel /\ s_state c' = SEmpty
+    | (_, Crash _) => False
+    end.
+Proof. exact sread_total. Qed.
+
+Theorem C08_comp_stream_seek_total :
+  forall (BLOCK : N) (dstate : Type) (dinit : dstate) (dstep : dstate -> bytes -> N -> dresult * N * bytes * dstate),
+    DstepBounded dstep ->
+  forall (S : Stream) (Iin : st S -> Prop) (pin : st S -> N) (M : N), Tame S Iin pin M -> 0 < BLOCK ->
+  forall (si : sizes_info) (P0 : N) (c : sreader dstate S) (w : whence),
+    IcompS BLOCK dstate S Iin si P0 c -> sseek_arg_ok dstate S c w ->
+    match sseek BLOCK dstate dinit dstep S c w with
+    | (c', Ok q) => IcompS BLOCK dstate S Iin si P0 c' /\ s_pos c' = q /\ (forall p : N, w = FromStart p -> q = p)
+    | (c', Err e) => IcompS BLOCK dstate S Iin si P0 c' /\ e <> EFuel
+    | (_, Crash _) => False
+    end.
+Proof. exact sseek_total. Qed.
+
+(* after a read that returned Err the reader sits in Empty, inside the invariant, and every
+   later call is total (reads: Ok(0) or WrongReaderState; seeks: an error, or the position for
+   Current(0)); the state does not change any more *)
+Theorem C08_comp_stream_usable_after_error :
+  forall (BLOCK : N) (dstate : Type) (dinit : dstate) (dstep : dstate -> bytes -> N -> dresult * N * bytes * dstate),
+    DstepBounded dstep ->
+  forall (S : Stream) (Iin : st S -> Prop) (pin : st S -> N) (M : N), Tame S Iin pin M -> 0 < BLOCK ->
+  forall (si : sizes_info) (P0 : N) (c : sreader dstate S) (n : N) (e : err) (c' : sreader dstate S),
+    IcompS BLOCK dstate S Iin si P0 c -> sread BLOCK dstate dinit dstep S c n = (c', Err e) ->
+    IcompS BLOCK dstate S Iin si P0 c' /\ s_state c' = SEmpty /\ e <> EFuel /\
+    (forall n' : N, sread BLOCK dstate dinit dstep S c' n' = (c', Ok []) \/
+                    sread BLOCK dstate dinit dstep S c' n' = (c', Err EState)) /\
+    (forall w : whence, sseek_arg_ok dstate S c' w ->
+       match sseek BLOCK dstate dinit dstep S c' w with
+       | (c'', Ok q) => IcompS BLOCK dstate S Iin si P0 c'' /\ c'' = c' /\ w = FromCur 0 /\ q = s_pos c'
+       | (c'', Err e') => IcompS BLOCK dstate S Iin si P0 c'' /\ c'' = c' /\ e' <> EFuel
+       | (_, Crash _) => False
+       end).
+Proof. exact comp_stream_usable_after_error. Qed.
+
+(* ERROR TIMING, over ANY inner stream S (no hypothesis on it).  The decompressor is live on a
+   complete stream c, having consumed cin and emitted cout; X = cin ++ pending is what it has
+   pulled from the inner layer.
+   (a) if D X is longer than cout, a read with a non-empty buffer succeeds with a non-empty run
+       of the next bytes of D X and does NOT touch the inner stream (a read returning bytes
+       entirely decoded from input pulled before the failing chunk succeeds); *)
+Theorem C08_comp_stream_read_of_pulled_input_succeeds :
+  forall (dstate : Type) (dinit : dstate) (dstep : dstate -> bytes -> N -> dresult * N * bytes * dstate)
+         (D : bytes -> bytes) (fin : bytes -> bool), DecoderLaws dinit dstep D fin ->
+  forall (S0 : Stream) (fuel : nat) (d : sdecomp dstate S0) (c cin cout : bytes) (n : N),
+    live dstate dinit dstep fin S0 d c cin cout -> 0 < n ->
+    len cout < len (D (cin ++ pending dstate S0 d)) ->
+    exists (d' : sdecomp dstate S0) (out : bytes),
+      sd_read dstate dstep S0 (Datatypes.S fuel) d n = (d', Ok out) /\ out <> [] /\ len out <= n /\
+      prefix (cout ++ out) (D (cin ++ pending dstate S0 d)) /\
+      sd_in d' = sd_in d /\ sd_lim d' = sd_lim d /\ sd_bsz d' = sd_bsz d /\ buf_ok dstate S0 d' /\
+      after_read dstate dinit dstep D fin S0 d c cin cout d' out.
+Proof. exact sd_read_pending. Qed.
+(* (b) if everything decodable from X has been delivered and c is not complete, the call issues
+       ONE inner read of min(refill_want, Take limit) bytes, and an inner error at that read is
+       the error of the call (the compression reader then goes to Empty: C08_comp_stream_reader_total) *)
+Theorem C08_comp_stream_starved_read_meets_inner_error :
+  forall (dstate : Type) (dinit : dstate) (dstep : dstate -> bytes -> N -> dresult * N * bytes * dstate)
+         (D : bytes -> bytes) (fin : bytes -> bool), DecoderLaws dinit dstep D fin ->
+  forall (S0 : Stream) (fuel : nat) (d : sdecomp dstate S0) (c cin cout : bytes) (n : N) (i' : st S0) (e : err),
+    live dstate dinit dstep fin S0 d c cin cout -> 0 < n ->
+    D (cin ++ pending dstate S0 d) = cout -> len (cin ++ pending dstate S0 d) < len c -> 0 < sd_lim d ->
+    rd S0 (sd_in d) (N.min (refill_want dstate S0 d) (sd_lim d)) = (i', Err e) ->
+    exists d' : sdecomp dstate S0, sd_read dstate dstep S0 (Datatypes.S fuel) d n = (d', Err e) /\ sd_in d' = i'.
+Proof. exact sd_read_starved_err. Qed.
+
+(* non-vacuity: the toy decoder is bounded and lawful; over an inner stream whose reads fail
+   from offset 12 on, the seek that creates the decompressor of the second block succeeds, the
+   first read (which needs the block's bytes) returns the inner error, the reader is Empty and
+   later calls return WrongReaderState *)
+Example C08_comp_stream_example :
+  DstepBounded tstep /\ DecoderLaws tinit tstep tD tfin /\
+  (let S := FailFrom sx_wire 12 in
+   let T := CompReaderS 8 tstate tinit tstep S in
+   let c0 := mkS (SReady (0 : st S)) (Some (mkSI [9; 9; 5] 4)) 0 in
+   match sk T c0 (FromStart 8) with
+   | (c1, Ok 8) =>
+     match rd T c1 4 with
+     | (c2, Err EWrongTag) =>
+       s_state c2 = SEmpty /\ fst (rd T c2 4) = c2 /\ snd (rd T c2 4) = Err EState /\
+       snd (sk T c2 (FromStart 0)) = Err EState
+     | _ => False
+     end
+   | _ => False
+   end).
+Proof. exact (conj toy_bounded (conj toy_laws comp_stream_error_timing_toy)). Qed.
+
+Print Assumptions C08_comp_stream_reader_total.
+Print Assumptions C08_comp_stream_seek_total.
+Print Assumptions C08_comp_stream_usable_after_error.
+Print Assumptions C08_comp_stream_read_of_pulled_input_succeeds.
+Print Assumptions C08_comp_stream_starved_read_meets_inner_error.
+Print Assumptions C08_comp_stream_example.
